@@ -69,6 +69,8 @@ pub enum SOp {
     /// lack the tree nodes for the byte range of blocks it never fetched); C08 only requires that
     /// has()/contiguous_length stay exact.
     RClearRange(u16, u16),
+    /// replica-side clear(start, end) with explicit bounds (clamped to start < end <= length + 2)
+    RClearAt(u64, u64),
 }
 
 // ------------------------------------------------------------------ generators
@@ -655,7 +657,6 @@ impl RSim {
     /// Replica-side clear of an arbitrary range. Ok => the range is cleared. Err => accepted,
     /// but the bits must then be either all cleared or all unchanged (decided by observation).
     pub fn replica_clear_range(&mut self, a: u16, b: u16, local: &mut Local) -> Check {
-        let step = self.step;
         let len = self.rm.length;
         if len == 0 {
             local.class("replica_clear_range_skipped");
@@ -663,6 +664,25 @@ impl RSim {
         }
         let start = sel(a, len);
         let end = start + 1 + sel(b, len + 2 - start);
+        self.replica_clear_at(start, end, local)
+    }
+
+    pub fn replica_clear_at(&mut self, start: u64, end: u64, local: &mut Local) -> Check {
+        let step = self.step;
+        let len = self.rm.length;
+        if len == 0 {
+            local.class("replica_clear_range_skipped");
+            return Ok(());
+        }
+        let start = start.min(len - 1);
+        let end = end.clamp(start + 1, len + 2);
+        let missing_page_between = {
+            let (ps, pe) = (start / 32768, (end - 1) / 32768);
+            ps < pe && start % 32768 != 0 && !self.pages_held.contains(&ps) && self.rm.held.range(pe * 32768..end).next().is_some()
+        };
+        if missing_page_between {
+            local.class("replica_clear_from_inside_an_untouched_page_into_a_held_page");
+        }
         let r = self.replica();
         let res = match catch(|| block_on(r.clear(start, end))) {
             Ok(x) => x,
@@ -716,6 +736,7 @@ impl RSim {
             SOp::Sync => self.sync_all(local)?,
             SOp::RClear(x) => self.replica_clear(*x, local)?,
             SOp::RClearRange(a, b) => self.replica_clear_range(*a, *b, local)?,
+            SOp::RClearAt(a, b) => self.replica_clear_at(*a, *b, local)?,
         }
         self.step += 1;
         Ok(())
